@@ -85,6 +85,9 @@ def run(tier, v):
     cov["selftest_swap_rejected"] = vlib.selftest_reject("RelayTrace", "RelayTrace.cfg", files[0], swap)
     if not (cov["selftest_drop_rejected"] and cov["selftest_swap_rejected"]):
         raise vlib.Infra("binding self-test failed")
+    # extension beyond the listed properties (never a verdict on C13): the tunnel path through a
+    # relay (spec/RelayTunnel.tla): its two findings on the unchanged tree are described in DESIGN.md 6.6
+    vlib.run_extension("x03", tier, cov)
     return cov
 
 
